@@ -232,6 +232,8 @@ class Contract:
     abstract_calls: dict = field(default_factory=dict)    # simple callee name -> abstract handler (assumed contract)
     asserts: dict = field(default_factory=dict)           # statement fingerprint -> clauses checked before it runs
     taint: dict = field(default_factory=dict)             # local name -> tag put on opaque values assigned to it
+    inline_targets: list = field(default_factory=list)    # callees executed from their real bodies even if a contract exists
+    inline_depth: int = 0                                 # value mode: allow deeper inlining (lemma drivers)
     merge_threshold: int = 0                              # frame mode: join states only above this many (0 = default)
     pop_guard: bool = False
     ctx_facts: list = field(default_factory=list)
